@@ -53,6 +53,9 @@ def main():
             h.fail('names_are_joined_constituents_of_the_candidate_space', wit, f'new columns {new}; candidates {len(space)} cap {cap}')
             return
         for n in new:
+            vals_ = out[n].tolist()
+            if any(not (isinstance(v, str) and len(v) == 16 and all(ch in '0123456789abcdef' for ch in v)) for v in vals_[:50]):
+                h.fail('combine_features.values_are_64_bit_digests', dict(wit, column=n), f'e.g. {vals_[:2]} (the statement allows 64-bit hash collisions only)')
             comb = names[n]
             tuples = list(zip(*[before[c].tolist() for c in comb]))
             col = out[n].tolist()
@@ -98,9 +101,22 @@ def main():
         df['label'] = [str(rng.integers(0, 2)) for _ in range(n)]
         for order in (2, 3, 4):
             if order > ncols:
+                # no candidate at all: the frame comes back unchanged (all rows, no new column)
+                check(df, order, 1000, tag='order-exceeds-columns')
                 continue
             for cap in (1, 3, 1000):
                 check(df, order, cap, tag='random')
+    # ---- scale: 2*10^5 distinct digit-id pairs must give 2*10^5 distinct interaction values (a 32-bit digest would collide)
+    big_n = 200000
+    ids = rng.permutation(big_n)
+    big = pd.DataFrame({'user': [str(int(v)) for v in ids], 'campaign': [str(int(v) % 977) for v in ids], 'label': ['0', '1'] * (big_n // 2)})
+    outb = run(big, 2, 10)
+    h.record(('scale', big_n), True)
+    nd = outb['user AND campaign'].nunique() if 'user AND campaign' in outb.columns else -1
+    if nd != big_n:
+        h.fail('combine_features.ensures.faithful', {'rows': big_n, 'shape': 'all (user, campaign) pairs distinct'},
+               f'{nd} distinct interaction values for {big_n} distinct value tuples', obligations=['core_ranking.compute_combined_features.combine_features/ensures.faithful'])
+    h.bounded_note('2*10^5 distinct value tuples give 2*10^5 distinct interaction values', '1 frame', 1)
     h.bounded_note('compute_combined_features: names, candidate space under the cap, faithfulness, originals untouched, score equality',
                    f'2-row frames over {len(adv)} adversarial values (order 2), aliasing families, random frames with 2-5 columns x 2-11 rows x orders 2-4 x caps 1/3/1000',
                    h.evaluations)
